@@ -134,4 +134,14 @@ CHECKS = {
         technique='static must-pass-through (dominance) rule on the CFG for parent-link climbs plus sign-domain descent check',
         design_ref='3-T, 4-C04',
     ),
+    'C05': dict(
+        category='other',
+        text='Decides sibling-agreement and protocol clauses of the chained hash table, not map behaviour over histories: S1 put, '
+             'get and remove derive the slot from the same closed expression and the walk resumes at stored-hash % range + 1; S2 '
+             'the three lookups share one match predicate; S3 the predecessor-pointer unlink loop updates the predecessor on every '
+             'path that continues and handles head and interior removal; T4 the key count moves only with node creation/destruction.',
+        note='Thin by construction: which chain layouts arise and what a history returns are runtime facts.',
+        technique='static sibling-agreement over expanded canonical expressions and a CFG cycle rule for the unlink loop',
+        design_ref='4-C05',
+    ),
 }
